@@ -426,7 +426,7 @@ Lemma appends_post v t1 t2 sel : forall h st,
   (synced st -> sel_inv v t1 t2 st sel -> synced st' /\ sel_inv v t1 t2 st' sel).
 Proof.
   induction h as [|o h IH]; intros st Hb Hd Hinc; [cbn; auto|].
-  inversion Hb as [|x l Ho Hb']; subst. destruct o as [segs| | | |o1 o2]; try destruct Ho.
+  inversion Hb as [|x l Ho Hb']; subst. destruct o as [segs| | | |o1 o2| |]; try destruct Ho.
   cbn [fold_left step hist_disc ids_hist] in *. destruct Hd as [Hd1 Hd2].
   pose proof (run_segs_ids v segs st iw_init) as Hids.
   assert (Hinc1 : inc_ids (ids_of (p_chunks (run_segs v st iw_init segs)))) by (rewrite Hids; apply (segs_disc_inc segs _ true Hinc Hd1)).
@@ -491,3 +491,330 @@ Lemma lazy_wit_nonvac :
   fresh_windows impl_variant 100 200 (fold_left (step impl_variant) [HBatch [mkseg 1 false (repeat 150 5)]] lazy_wit_st)
     = [Some (mkst 9 max_uint32 15)].
 Proof. split; [|split; vm_compute; reflexivity]. cbn [session_ok lazy_wit_hs]. repeat split; vm_compute; reflexivity. Qed.
+
+(* ====================================================================================================
+   Anything but an index loss between the reads of one selector: write batches, rebuilder runs, SyncChunks,
+   other reads, clean restarts, describes.  A cached window may then differ from the one a fresh selector would
+   compute (the index was rebuilt in between), but it was computed for the same records of the chunk from an
+   index that satisfied the invariant, so it still contains every position whose timestamp is in the range.
+   ==================================================================================================== *)
+Definition win_complete (t1 t2 : Z) (s : chk_status) (d : list Z) : Prop :=
+  forall i, 0 <= i < len d -> t1 <= dnth d i <= t2 ->
+    snd (check_pos_or_advance s 0) = true /\ fst (check_pos_or_advance s 0) <= i <= s_max s.
+
+(* the cache: every status is for a prefix of the chunk's records, and one that is for all of them is complete *)
+Definition sel_W (t1 t2 : Z) (st : pstate) (sel : sel_cache) : Prop :=
+  (forall c s, sel_find sel c = Some s -> In c (ids_of (p_chunks st))) /\
+  (forall c d s, In (c, d) (p_chunks st) -> sel_find sel c = Some s ->
+     s_cnt s <= len d /\ (s_cnt s = len d -> win_complete t1 t2 s d)).
+(* every chunk has a status for all of its records (what holds after the selector was asked for every chunk) *)
+Definition sel_current (t1 t2 : Z) (st : pstate) (sel : sel_cache) : Prop :=
+  forall c d, In (c, d) (p_chunks st) -> exists s, sel_find sel c = Some s /\ s_cnt s = len d /\ win_complete t1 t2 s d.
+(* the index the selector consults satisfies the meaning invariant *)
+Definition good_index (st : pstate) : Prop :=
+  forall c d k, In (c, d) (p_chunks st) -> find_chunk (p_ci st) c = Some k -> chunk_inv k d /\ len d <= max_uint32.
+
+Lemma fresh_complete v t1 t2 st c d s : fix_lb v = true -> good_index st -> In (c, d) (p_chunks st) ->
+  fresh_st v t1 t2 (p_ci st) (c, d) = Some s -> s_cnt s = len d /\ win_complete t1 t2 s d.
+Proof.
+  intros Hv Hg Hin Hf. split; [apply (fresh_st_cnt v t1 t2 _ _ _ Hf)|].
+  unfold fresh_st in Hf. cbn [fst snd] in Hf. destruct (find_chunk (p_ci st) c) as [k|] eqn:Ek; [|discriminate].
+  injection Hf as <-. destruct (Hg c d k Hin Ek) as [Hinv Hlen]. destruct (find_chunk_some _ _ _ Ek) as [Hid _].
+  intros i Hi Ht. rewrite <- Hid. apply window_complete; try assumption. rewrite Hid. exact Ek.
+Qed.
+
+Lemma get_status_W v t1 t2 st sel c d :
+  fix_lb v = true -> NoDup (ids_of (p_chunks st)) -> synced st -> good_index st -> sel_W t1 t2 st sel -> In (c, d) (p_chunks st) ->
+  let r := get_chunk_status false v t1 t2 sel st c (Z.of_nat (length d)) in
+  p_chunks (snd r) = p_chunks st /\ p_ci (snd r) = p_ci st /\ sel_W t1 t2 (snd r) (fst r) /\
+  (exists s, sel_find (fst r) c = Some s /\ s_cnt s = len d) /\
+  (forall c' d', In (c', d') (p_chunks st) -> (exists s, sel_find sel c' = Some s /\ s_cnt s = len d') ->
+                 exists s, sel_find (fst r) c' = Some s /\ s_cnt s = len d').
+Proof.
+  intros Hv Hnd Hsy Hg [Hkeys Hgood] Hin. pose proof (synced_sync st Hsy Hnd) as Hfix.
+  assert (Hreb : let r := sel_rebuild v t1 t2 st in
+            p_chunks (snd r) = p_chunks st /\ p_ci (snd r) = p_ci st /\ sel_W t1 t2 (snd r) (fst r) /\
+            (exists s, sel_find (fst r) c = Some s /\ s_cnt s = len d) /\
+            (forall c' d', In (c', d') (p_chunks st) -> (exists s, sel_find sel c' = Some s /\ s_cnt s = len d') ->
+                           exists s, sel_find (fst r) c' = Some s /\ s_cnt s = len d')).
+  { destruct (rebuild_post v t1 t2 st Hnd) as (H1 & H2 & H3 & [_ H4] & H5). rewrite Hfix in *. cbn zeta.
+    assert (Hall : forall c' d', In (c', d') (p_chunks st) ->
+              exists s, sel_find (fst (sel_rebuild v t1 t2 st)) c' = Some s /\ s_cnt s = len d' /\ win_complete t1 t2 s d').
+    { intros c' d' Hin'. destruct (H4 c' d' Hin') as [E Hne].
+      destruct (fresh_st v t1 t2 (p_ci st) (c', d')) as [s|] eqn:Ef; [|contradiction]. exists s. split; [exact E|].
+      apply (fresh_complete v t1 t2 st c' d' s Hv Hg Hin' Ef). }
+    split; [exact H1|]. split; [exact H2|]. split; [|split].
+    - split; [rewrite H1; exact H5|]. rewrite H1. intros c' d' s Hin' Hs. destruct (Hall c' d' Hin') as (s' & E & Hc & Hw).
+      rewrite Hs in E. injection E as <-. split; [lia|intros _; exact Hw].
+    - destruct (Hall c d Hin) as (s & E & Hc & _). exists s. split; assumption.
+    - intros c' d' Hin' _. destruct (Hall c' d' Hin') as (s & E & Hc & _). exists s. split; assumption. }
+  unfold get_chunk_status. destruct (sel_find sel c) as [s|] eqn:Es; [|exact Hreb].
+  destruct (negb (Nat.eqb (length (p_chunks st)) (length sel))); [exact Hreb|].
+  destruct (Hgood c d s Hin Es) as [Hle Heq]. fold (len d).
+  destruct (Z.eqb_spec (s_cnt s) (len d)) as [E|E].
+  - cbn [fst snd]. split; [reflexivity|]. split; [reflexivity|]. split; [split; assumption|].
+    split; [exists s; split; assumption|]. intros c' d' _ H. exact H.
+  - cbn [andb]. destruct (synced_known st c d Hsy Hin) as [k Hk]. rewrite Hk.
+    destruct (update_poss v (p_ci st) t1 t2 c (k_min k) (k_max k) (len d)) as [s' rb] eqn:Eu. cbn [fst snd p_chunks p_ci].
+    assert (Hfr : fresh_st v t1 t2 (p_ci st) (c, d) = Some s') by (unfold fresh_st; cbn [fst snd]; rewrite Hk, Eu; reflexivity).
+    destruct (fresh_complete v t1 t2 st c d s' Hv Hg Hin Hfr) as [Hc' Hw'].
+    assert (Hsame : sel_find (sel_set sel c s') c = Some s') by (apply (sel_find_set_same sel c s s' Es)).
+    split; [reflexivity|]. split; [reflexivity|]. split; [|split; [exists s'; split; assumption|]].
+    + split.
+      * intros c' s0 H0. destruct (Z.eq_dec c' c) as [->|Hne]; [apply (In_ids _ _ _ Hin)|].
+        rewrite sel_find_set_other in H0 by exact Hne. apply (Hkeys c' s0 H0).
+      * intros c' d' s0 Hin' H0. destruct (Z.eq_dec c' c) as [->|Hne].
+        -- rewrite Hsame in H0. injection H0 as <-. rewrite (chunk_unique _ _ _ _ Hnd Hin' Hin). split; [lia|intros _; exact Hw'].
+        -- rewrite sel_find_set_other in H0 by exact Hne. apply (Hgood c' d' s0 Hin' H0).
+    + intros c' d' Hin' H. destruct (Z.eq_dec c' c) as [->|Hne].
+      * rewrite (chunk_unique _ _ _ _ Hnd Hin' Hin). exists s'. split; assumption.
+      * rewrite sel_find_set_other by exact Hne. exact H.
+Qed.
+
+Lemma good_same st st' : p_chunks st' = p_chunks st -> p_ci st' = p_ci st -> good_index st -> good_index st'.
+Proof. unfold good_index. intros -> ->. exact (fun H => H). Qed.
+
+Lemma walk_from_W v t1 t2 : fix_lb v = true -> forall l st sel,
+  NoDup (ids_of (p_chunks st)) -> synced st -> good_index st -> sel_W t1 t2 st sel -> incl l (p_chunks st) ->
+  let r := sel_walk_from false v t1 t2 l sel st in
+  p_chunks (snd r) = p_chunks st /\ p_ci (snd r) = p_ci st /\ sel_W t1 t2 (snd r) (fst r) /\
+  (forall c d, In (c, d) l -> exists s, sel_find (fst r) c = Some s /\ s_cnt s = len d) /\
+  (forall c' d', In (c', d') (p_chunks st) -> (exists s, sel_find sel c' = Some s /\ s_cnt s = len d') ->
+                 exists s, sel_find (fst r) c' = Some s /\ s_cnt s = len d').
+Proof.
+  intros Hv. induction l as [|[c d] l IH]; intros st sel Hnd Hsy Hg HW Hincl.
+  - cbn. split; [reflexivity|]. split; [reflexivity|]. split; [exact HW|]. split; [intros c d []|]. intros c' d' _ H. exact H.
+  - cbn [sel_walk_from].
+    assert (Hin : In (c, d) (p_chunks st)) by (apply Hincl; left; reflexivity).
+    destruct (get_status_W v t1 t2 st sel c d Hv Hnd Hsy Hg HW Hin) as (H1 & H2 & H3 & H4 & H5).
+    destruct (get_chunk_status false v t1 t2 sel st c (Z.of_nat (length d))) as [sel1 st1]. cbn [fst snd] in *.
+    assert (Hnd1 : NoDup (ids_of (p_chunks st1))) by (rewrite H1; exact Hnd).
+    assert (Hsy1 : synced st1) by (apply (synced_same st st1 H1 H2 Hsy)).
+    assert (Hg1 : good_index st1) by (apply (good_same st st1 H1 H2 Hg)).
+    assert (Hincl1 : incl l (p_chunks st1)) by (rewrite H1; intros x Hx; apply Hincl; right; exact Hx).
+    destruct (IH st1 sel1 Hnd1 Hsy1 Hg1 H3 Hincl1) as (G1 & G2 & G3 & G4 & G5). rewrite H1, H2 in *.
+    split; [exact G1|]. split; [exact G2|]. split; [exact G3|]. split.
+    + intros c0 d0 [E|Hl]; [injection E as <- <-; apply (G5 c d Hin H4)|apply G4; exact Hl].
+    + intros c' d' Hin' H. apply (G5 c' d' Hin'). apply (H5 c' d' Hin' H).
+Qed.
+
+Lemma W_current t1 t2 st sel : sel_W t1 t2 st sel ->
+  (forall c d, In (c, d) (p_chunks st) -> exists s, sel_find sel c = Some s /\ s_cnt s = len d) -> sel_current t1 t2 st sel.
+Proof.
+  intros [_ Hgood] Hcur c d Hin. destruct (Hcur c d Hin) as (s & Hs & Hc). exists s. split; [exact Hs|]. split; [exact Hc|].
+  apply (proj2 (Hgood c d s Hin Hs) Hc).
+Qed.
+
+Lemma sel_W_nil t1 t2 st : sel_W t1 t2 st [].
+Proof. split; [intros c s H; discriminate|intros c d s _ H; discriminate]. Qed.
+
+(* one read of the continued selector on a synced state with a good index *)
+Lemma walk_W v t1 t2 st sel : fix_lb v = true -> NoDup (ids_of (p_chunks st)) -> synced st -> good_index st -> sel_W t1 t2 st sel ->
+  let r := sel_walk false v t1 t2 sel st in
+  p_chunks (snd r) = p_chunks st /\ p_ci (snd r) = p_ci st /\ sel_W t1 t2 (snd r) (fst r) /\ sel_current t1 t2 st (fst r).
+Proof.
+  intros Hv Hnd Hsy Hg HW. unfold sel_walk.
+  destruct (walk_from_W v t1 t2 Hv (p_chunks st) st sel Hnd Hsy Hg HW (incl_refl _)) as (H1 & H2 & H3 & H4 & _).
+  split; [exact H1|]. split; [exact H2|]. split; [exact H3|].
+  apply W_current; [|exact H4]. destruct H3 as [K1 K2]. rewrite H1 in *. split; assumption.
+Qed.
+
+(* ---------- how the records of the chunks change: they only grow ---------- *)
+Definition dgrown (st st' : pstate) : Prop :=
+  (forall c, In c (ids_of (p_chunks st)) -> In c (ids_of (p_chunks st'))) /\
+  forall c d', In (c, d') (p_chunks st') -> In c (ids_of (p_chunks st)) ->
+    exists d, In (c, d) (p_chunks st) /\ (d' = d \/ len d < len d').
+
+Lemma dgrown_refl st st' : p_chunks st' = p_chunks st -> dgrown st st'.
+Proof. intros E. split; rewrite E; [auto|]. intros c d' Hin _. exists d'. split; [exact Hin|left; reflexivity]. Qed.
+Lemma dgrown_trans a b c : dgrown a b -> dgrown b c -> dgrown a c.
+Proof.
+  intros [A1 A2] [B1 B2]. split; [intros x Hx; apply B1; apply A1; exact Hx|].
+  intros x d'' Hin Hx. destruct (B2 x d'' Hin (A1 x Hx)) as (d' & Hd' & Hr). destruct (A2 x d' Hd' Hx) as (d & Hd & Hr').
+  exists d. split; [exact Hd|]. destruct Hr as [->|Hr]; destruct Hr' as [->|Hr']; [left; reflexivity|right; exact Hr'|right; exact Hr|right; lia].
+Qed.
+
+Lemma append_data_in cks cid tss c d' : In (c, d') (append_data cks cid tss) ->
+  In (c, d') cks \/ (c = cid /\ ((exists d, In (cid, d) cks /\ d' = d ++ tss) \/ ~ In cid (ids_of cks))).
+Proof.
+  induction cks as [|[c0 d0] cks IH]; cbn [append_data]; intros H.
+  - destruct H as [E|[]]. injection E as <- <-. right. split; [reflexivity|]. right. intros [].
+  - destruct (Z.eqb_spec c0 cid) as [->|Hne].
+    + destruct H as [E|H]; [injection E as <- <-; right; split; [reflexivity|]; left; exists d0; split; [left; reflexivity|reflexivity]|].
+      left. right. exact H.
+    + destruct H as [E|H]; [left; left; exact E|]. destruct (IH H) as [Hl|[-> [(d & Hd & ->)|Hn]]].
+      * left. right. exact Hl.
+      * right. split; [reflexivity|]. left. exists d. split; [right; exact Hd|reflexivity].
+      * right. split; [reflexivity|]. right. cbn [ids_of map fst]. intros [E|Hi]; [contradiction|]. apply Hn. exact Hi.
+Qed.
+
+Lemma seg_apply_dgrown v st iw sg : sg_ts sg <> [] -> dgrown st (fst (seg_apply v st iw sg)).
+Proof.
+  intros Hne. unfold seg_apply. cbn [fst]. split; cbn [p_chunks].
+  - intros c Hc. rewrite ids_append_data. destruct (existsb (Z.eqb (sg_cid sg)) (ids_of (p_chunks st))); [exact Hc|apply in_or_app; left; exact Hc].
+  - intros c d' Hin Hc. destruct (append_data_in _ _ _ _ _ Hin) as [Hl|[-> [(d & Hd & ->)|Hn]]].
+    + exists d'. split; [exact Hl|left; reflexivity].
+    + exists d. split; [exact Hd|]. right. apply len_app_lt. exact Hne.
+    + contradiction.
+Qed.
+
+Lemma run_segs_dgrown v : forall segs st iw, dgrown st (run_segs v st iw segs).
+Proof.
+  induction segs as [|sg tl IH]; intros st iw; [apply dgrown_refl; reflexivity|].
+  destruct (sg_ts sg) as [|t ts] eqn:E; [rewrite (run_segs_skip v st iw sg tl E); apply IH|].
+  assert (Hne : sg_ts sg <> []) by (rewrite E; discriminate). rewrite (run_segs_cons v st iw sg tl Hne).
+  apply (dgrown_trans _ _ _ (seg_apply_dgrown v st iw sg Hne)). apply IH.
+Qed.
+
+Lemma step_dgrown v st o : dgrown st (step v st o).
+Proof.
+  destruct o as [segs| | | |o1 o2| |]; cbn [step]; try (apply dgrown_refl; reflexivity).
+  - apply run_segs_dgrown.
+  - apply dgrown_refl. apply (proj1 (range_read_state v st o1 o2)).
+Qed.
+
+Lemma sel_W_dgrown t1 t2 st st' sel : dgrown st st' -> sel_W t1 t2 st sel -> sel_W t1 t2 st' sel.
+Proof.
+  intros [Hids Hg] [Hkeys Hgood]. split; [intros c s H; apply Hids; apply (Hkeys c s H)|].
+  intros c d' s Hin Hs. destruct (Hg c d' Hin (Hkeys c s Hs)) as (d & Hd & [->|Hlt]); [apply (Hgood c d s Hd Hs)|].
+  destruct (Hgood c d s Hd Hs) as [Hle _]. split; lia.
+Qed.
+
+(* ---------- histories without an index loss, from a synced reachable state ---------- *)
+Definition no_drop (o : op) : Prop := match o with HDrop => False | _ => True end.
+
+Lemma hist_disc_app : forall a ids b, hist_disc ids (a ++ b) -> hist_disc ids a /\ hist_disc (ids_hist ids a) b.
+Proof.
+  induction a as [|o a IH]; intros ids b H; [split; [exact I|exact H]|].
+  destruct o; cbn [app hist_disc ids_hist] in *; try (apply IH; exact H).
+  destruct H as [H1 H2]. destruct (IH _ _ H2) as [G1 G2]. split; [split; assumption|exact G2].
+Qed.
+
+Lemma run_nodrop : forall h st,
+  J st -> synced st -> Forall op_ok h -> Forall no_drop h -> hist_disc (ids_of (p_chunks st)) h ->
+  sorted_z (alld_of (p_chunks st) ++ hist_data h) ->
+  let st' := fold_left (step fixed_variant) h st in
+  J st' /\ synced st' /\ alld_of (p_chunks st') = alld_of (p_chunks st) ++ hist_data h /\
+  ids_of (p_chunks st') = ids_hist (ids_of (p_chunks st)) h /\ dgrown st st'.
+Proof.
+  induction h as [|o h IH]; intros st HJ Hsy Hok Hnd Hdisc Hso.
+  - cbn. rewrite app_nil_r. split; [exact HJ|]. split; [exact Hsy|]. split; [reflexivity|]. split; [reflexivity|]. apply dgrown_refl. reflexivity.
+  - inversion Hok as [|x l Ho Hh]; subst. inversion Hnd as [|x l Hno Hnd']; subst. cbn [fold_left hist_data flat_map] in *.
+    assert (Hso1 : sorted_z (alld_of (p_chunks st) ++ op_data o)) by (rewrite app_assoc in Hso; apply (sorted_z_app_l _ _ Hso)).
+    assert (Hb : forall segs, o = HBatch segs -> false = false /\ segs_disc (ids_of (p_chunks st)) true segs).
+    { intros segs ->. cbn in Hdisc. destruct Hdisc as [H1 _]. split; [reflexivity|exact H1]. }
+    destruct (step_inv o st false HJ (fun _ => Hsy) Ho Hb Hso1) as (HJ1 & Hsy1 & Hall1 & Hids1).
+    assert (Hnd1 : next_dropped false o = false) by (destruct o; try reflexivity; destruct Hno).
+    destruct (IH (step fixed_variant st o) HJ1 (Hsy1 Hnd1) Hh Hnd') as (G1 & G2 & G3 & G4 & G5).
+    + rewrite Hids1. destruct o; cbn in Hdisc; try exact Hdisc. destruct Hdisc as [_ H]. exact H.
+    + rewrite Hall1, <- app_assoc. exact Hso.
+    + split; [exact G1|]. split; [exact G2|]. split; [rewrite G3, Hall1, <- app_assoc; reflexivity|]. split.
+      * rewrite G4, Hids1. destruct o; reflexivity.
+      * apply (dgrown_trans _ _ _ (step_dgrown fixed_variant st o) G5).
+Qed.
+
+Lemma J_same st st' : p_chunks st' = p_chunks st -> p_ci st' = p_ci st -> J st -> J st'.
+Proof. intros E1 E2 [H1 H2 H3 H4 H5]. constructor; rewrite ?E1, ?E2; assumption. Qed.
+
+Lemma J_good st : J st -> Z.of_nat (length (alld_of (p_chunks st))) <= max_uint32 -> good_index st.
+Proof.
+  intros [_ _ _ _ Hinv] Hsmall c d k Hin Hk. split; [apply chunk_invS_weaken; apply (Hinv c d k Hin Hk)|].
+  pose proof (len_le_alld _ c d Hin). lia.
+Qed.
+
+(* the statement: at every read of the continued selector every chunk has a window for all of its records that
+   contains every position whose timestamp is in the range *)
+Fixpoint session_complete (v : variant) (t1 t2 : Z) (st : pstate) (sel : sel_cache) (hs : list (list op)) : Prop :=
+  let r := sel_walk false v t1 t2 sel st in
+  sel_current t1 t2 st (fst r) /\
+  match hs with
+  | [] => True
+  | h :: tl => session_complete v t1 t2 (fold_left (step v) h (snd r)) (fst r) tl
+  end.
+
+Lemma session_complete_inv t1 t2 : forall hs st sel,
+  J st -> synced st -> sel_W t1 t2 st sel ->
+  Forall op_ok (concat hs) -> Forall no_drop (concat hs) -> hist_disc (ids_of (p_chunks st)) (concat hs) ->
+  sorted_z (alld_of (p_chunks st) ++ hist_data (concat hs)) ->
+  Z.of_nat (length (alld_of (p_chunks st) ++ hist_data (concat hs))) <= max_uint32 ->
+  session_complete fixed_variant t1 t2 st sel hs.
+Proof.
+  induction hs as [|h tl IH]; intros st sel HJ Hsy HW Hok Hnd Hdisc Hso Hsmall.
+  - cbn [session_complete]. split; [|exact I]. cbn [concat hist_data flat_map] in Hsmall. rewrite app_nil_r in Hsmall.
+    apply (walk_W fixed_variant t1 t2 st sel eq_refl (inc_ids_NoDup _ (j_ids st HJ)) Hsy (J_good st HJ Hsmall) HW).
+  - cbn [session_complete concat] in *. unfold hist_data in Hso, Hsmall. rewrite flat_map_app in Hso, Hsmall. fold (hist_data h) in *. fold (hist_data (concat tl)) in *.
+    assert (Hsm0 : Z.of_nat (length (alld_of (p_chunks st))) <= max_uint32) by (rewrite !app_length in Hsmall; lia).
+    destruct (walk_W fixed_variant t1 t2 st sel eq_refl (inc_ids_NoDup _ (j_ids st HJ)) Hsy (J_good st HJ Hsm0) HW) as (H1 & H2 & H3 & H4).
+    split; [exact H4|]. set (r := sel_walk false fixed_variant t1 t2 sel st) in *.
+    apply Forall_app in Hok as [Hok1 Hok2]. apply Forall_app in Hnd as [Hnd1 Hnd2].
+    destruct (hist_disc_app _ _ _ Hdisc) as [Hd1 Hd2].
+    assert (HJ1 : J (snd r)) by (apply (J_same st _ H1 H2 HJ)).
+    assert (Hsy1 : synced (snd r)) by (apply (synced_same st _ H1 H2 Hsy)).
+    destruct (run_nodrop h (snd r) HJ1 Hsy1 Hok1 Hnd1) as (G1 & G2 & G3 & G4 & G5).
+    + rewrite H1. exact Hd1.
+    + rewrite H1. rewrite app_assoc in Hso. apply (sorted_z_app_l _ _ Hso).
+    + apply IH; try assumption.
+      * apply (sel_W_dgrown t1 t2 _ _ _ G5 H3).
+      * rewrite G4, H1. exact Hd2.
+      * rewrite G3, H1, <- app_assoc. exact Hso.
+      * rewrite G3, H1, <- app_assoc. exact Hsmall.
+Qed.
+
+Lemma run_full : forall h st dropped,
+  J st -> (dropped = false -> synced st) -> Forall op_ok h ->
+  hist_disc (ids_of (p_chunks st)) h -> nwad dropped h -> sorted_z (alld_of (p_chunks st) ++ hist_data h) ->
+  let st' := fold_left (step fixed_variant) h st in
+  J st' /\ alld_of (p_chunks st') = alld_of (p_chunks st) ++ hist_data h /\
+  ids_of (p_chunks st') = ids_hist (ids_of (p_chunks st)) h /\ (fold_left next_dropped h dropped = false -> synced st').
+Proof.
+  induction h as [|o h IH]; intros st dropped HJ Hsy Hok Hdisc Hnw Hso.
+  - cbn. rewrite app_nil_r. auto.
+  - inversion Hok as [|x l Ho Hh]; subst. cbn [fold_left hist_data flat_map] in *.
+    assert (Hso1 : sorted_z (alld_of (p_chunks st) ++ op_data o)) by (rewrite app_assoc in Hso; apply (sorted_z_app_l _ _ Hso)).
+    assert (Hb : forall segs, o = HBatch segs -> dropped = false /\ segs_disc (ids_of (p_chunks st)) true segs).
+    { intros segs ->. cbn in Hdisc, Hnw. destruct Hdisc as [H1 _]. destruct Hnw as [H2 _]. split; assumption. }
+    destruct (step_inv o st dropped HJ Hsy Ho Hb Hso1) as (HJ1 & Hsy1 & Hall1 & Hids1).
+    destruct (IH (step fixed_variant st o) (next_dropped dropped o) HJ1 Hsy1 Hh) as (G1 & G2 & G3 & G4).
+    + rewrite Hids1. destruct o; cbn in Hdisc; try exact Hdisc. destruct Hdisc as [_ H]. exact H.
+    + destruct o; cbn in Hnw |- *; try exact Hnw. destruct Hnw as [_ H]. exact H.
+    + rewrite Hall1, <- app_assoc. exact Hso.
+    + split; [exact G1|]. split; [rewrite G2, Hall1, <- app_assoc; reflexivity|]. split; [|exact G4].
+      rewrite G3, Hids1. destruct o; reflexivity.
+Qed.
+
+(* the history before the selector is created does not end in an index loss that nothing has synchronised yet *)
+Definition ends_synced (h : list op) : Prop := fold_left next_dropped h false = false.
+
+Theorem continued_selector_complete t1 t2 hist0 hs :
+  Forall op_ok (hist0 ++ concat hs) -> hist_sorted (hist0 ++ concat hs) -> hist_disciplined (hist0 ++ concat hs) ->
+  hist_small (hist0 ++ concat hs) -> no_write_after_drop hist0 -> ends_synced hist0 -> Forall no_drop (concat hs) ->
+  session_complete fixed_variant t1 t2 (run fixed_variant hist0) [] hs.
+Proof.
+  intros Hok Hso Hdisc Hsmall Hnw Hend Hnd. apply Forall_app in Hok as [Hok0 Hok1].
+  unfold hist_sorted, hist_small, hist_data in Hso, Hsmall. rewrite flat_map_app in Hso, Hsmall. fold (hist_data hist0) in *. fold (hist_data (concat hs)) in *.
+  destruct (hist_disc_app _ _ _ Hdisc) as [Hd0 Hd1].
+  destruct (run_full hist0 p_init false J_init (fun _ => eq_refl) Hok0 Hd0 Hnw (sorted_z_app_l _ _ Hso)) as (HJ & Hall & Hids & Hsy).
+  fold (run fixed_variant hist0) in *. cbn [p_init p_chunks alld_of ids_of map flat_map app] in Hall, Hids.
+  apply session_complete_inv; try assumption.
+  - apply Hsy. exact Hend.
+  - apply sel_W_nil.
+  - rewrite Hids. exact Hd1.
+  - rewrite Hall. exact Hso.
+  - rewrite Hall. exact Hsmall.
+Qed.
+
+(* non-vacuity: a selector for [10,10] is asked, the index is rebuilt by a describe and a rebuilder run and the server is
+   restarted, a batch is appended, it is asked again: the windows are complete although the second chunk's cached window
+   was computed from the index as it was before the rebuild *)
+Definition sess_hist0 : list op :=
+  [HBatch [mkseg 1 false (repeat 0 3 ++ repeat 5 246 ++ [10])]; HBatch [mkseg 1 false (repeat 10 250)];
+   HBatch [mkseg 1 false (repeat 10 5); mkseg 2 false (repeat 10 245 ++ repeat 20 6)]; HDrop; HSync].
+Definition sess_hs : list (list op) := [[HDescribe; HServe; HRestart; HRead (Some 7) None]; [HBatch [mkseg 2 false (repeat 20 250)]; HServe]].
+Lemma sess_nonvac :
+  Forall op_ok (sess_hist0 ++ concat sess_hs) /\ hist_sorted (sess_hist0 ++ concat sess_hs) /\ hist_disciplined (sess_hist0 ++ concat sess_hs) /\
+  hist_small (sess_hist0 ++ concat sess_hs) /\ no_write_after_drop sess_hist0 /\ ends_synced sess_hist0 /\ Forall no_drop (concat sess_hs).
+Proof.
+  split; [apply hist_okb_ok; vm_compute; reflexivity|]. split; [apply sorted_zb_ok; vm_compute; reflexivity|].
+  split; [apply hist_discb_ok; vm_compute; reflexivity|]. split; [apply hist_smallb_ok; vm_compute; reflexivity|].
+  split; [apply nwadb_ok; vm_compute; reflexivity|]. split; [vm_compute; reflexivity|]. repeat constructor.
+Qed.
